@@ -358,7 +358,9 @@ def run_shard(ctx):
         rng = ctx.rng(i)
         i += 1
         if i % 5 == 0:
-            cfg, groups, nss = workloads.multi_sink_case(rng, with_ns=True)
+            cfg, groups, nss = workloads.multi_sink_case(rng, with_ns=True, empty_later_sink=True)
+            if any(not g for g in groups):
+                ctx.observe("multi-sink-cases-with-an-empty-later-sink")
             w = judge_multi(cfg, groups, nss)
             ctx.observe("multi-sink-cases")
             ctx.observe("prefix-events-compared", sum(len(n) for n in nss) * 2)
